@@ -59,6 +59,28 @@ func c10KdcScenarios() []KdcScenario {
 		m[0], m[1], m[2], m[3] = byte(v>>24), byte(v>>16), byte(v>>8), byte(v)
 		add(fmt.Sprintf("inner-length-prefix=%d-for-16-bytes", int32(v)), der.KdcProxyMessage(m, "EXAMPLE.COM", true, 0, false), nil)
 	}
+	// BER that is not DER: every length in the long form with 1 / 2 / 3 octets although a shorter form exists
+	// (Kerberos messages of 20, 200, 300 and 1000 bytes: with 2 octets the lengths of the larger ones are partly
+	// in their shortest form, the realm's never is)
+	for _, n := range []int{1, 2, 3} {
+		for _, sz := range []int{20, 200, 300, 1000} {
+			add(fmt.Sprintf("lengths-in-long-form-%d-octets/message-of-%d", n, sz), der.KdcProxyMessageLong(kdcMessage(sz), "EXAMPLE.COM", n), nil)
+		}
+	}
+	// ... and each of the three lengths around the Kerberos message on its own and together (realm in proper DER)
+	for _, n := range []int{2, 3} {
+		for mask := 1; mask < 8; mask++ {
+			for _, sz := range []int{20, 100, 200, 300} {
+				f := func(bit int) int {
+					if mask&bit != 0 {
+						return n
+					}
+					return 0
+				}
+				add(fmt.Sprintf("long-form-%d-octets/seq=%v,wrapper=%v,octet-string=%v/message-of-%d", n, mask&1 != 0, mask&2 != 0, mask&4 != 0, sz), der.KdcProxyMessageForms(kdcMessage(sz), "EXAMPLE.COM", f(1), f(2), f(4)), nil)
+			}
+		}
+	}
 	add("implicit-realm-tag", der.TLV(0x30, append(der.TLV(0xA0, der.TLV(0x04, kdcMessage(8))), der.TLV(0x81, []byte("EXAMPLE.COM"))...)), nil)
 	add("realm-with-nul", der.KdcProxyMessage(kdcMessage(8), "EXAMPLE.COM\x00X", true, 0, false), nil)
 	add("realm-empty", der.KdcProxyMessage(kdcMessage(8), "", true, 0, false), nil)
